@@ -339,6 +339,8 @@ def check_callout_rendering(rep, prog):
     st = pelx.new_stream(I)
     src = I.new(SRCQ + "SRC", [st, Const(0x5053), Sym("len"), Sym("v"), Sym("s"), Sym("c"), Sym("cr")])
     cfg = I.new("pel.peltool.config.Config")
+    # whether parser plug-ins are enabled must not decide which encoded fields are shown
+    I.obj(cfg).attrs["allow_plugins"] = Sym("plugins", "exc")
     out = I.x_collections_OrderedDict([], {}, None)
     I.method(src, "getCallouts", [out, cfg])
     ents, _ = final_entries(I, out)
@@ -372,7 +374,7 @@ def check_callout_rendering(rep, prog):
     cj, _ = final_entries(I, items[0][2])
     hasFRU, hasPCE, hasMRU = Sym("hasFRU", "exc"), Sym("hasPCE", "exc"), Sym("hasMRU", "exc")
     fflags = Sym("fru.flags", "int")
-    dom = {hasFRU: [False, True], hasPCE: [False, True], hasMRU: [False, True]}
+    dom = {hasFRU: [False, True], hasPCE: [False, True], hasMRU: [False, True], Sym("plugins", "exc"): [False, True]}
 
     def need(key, want_val, want_guard, desc):
         e = cj.get(key)
